@@ -27,6 +27,15 @@ type fact struct {
 // factsAt returns the branch conditions known at the start of block b: for every dominator d ending
 // in an If, if b is dominated by exactly one successor s of d and s has d as only predecessor.
 func factsAt(b *ssa.BasicBlock) []fact {
+	return factsAt0(b, map[*ssa.BasicBlock]bool{})
+}
+
+func factsAt0(b *ssa.BasicBlock, visiting map[*ssa.BasicBlock]bool) []fact {
+	if visiting[b] {
+		return nil
+	}
+	visiting[b] = true
+	defer delete(visiting, b)
 	var out []fact
 	fn := b.Parent()
 	for _, d := range fn.Blocks {
@@ -48,7 +57,8 @@ func factsAt(b *ssa.BasicBlock) []fact {
 	}
 	// short-circuit values: `a && b` used as a value (switch case) is phi[pa: false, pb: b];
 	// if it is true, b is true and everything known at pb holds; dually for `||` being false
-	for i := 0; i < len(out); i++ {
+	n0 := len(out)
+	for i := 0; i < n0; i++ {
 		p, ok := out[i].cond.(*ssa.Phi)
 		if !ok {
 			continue
@@ -72,7 +82,7 @@ func factsAt(b *ssa.BasicBlock) []fact {
 		if okShape && ((out[i].pol && !constVal) || (!out[i].pol && constVal)) {
 			k := nonConst[0]
 			out = append(out, fact{p.Edges[k], out[i].pol})
-			out = append(out, factsAt(p.Block().Preds[k])...)
+			out = append(out, factsAt0(p.Block().Preds[k], visiting)...)
 		}
 	}
 	// normalise negations
